@@ -337,32 +337,87 @@ def parseNum (s : String) : Option (List (Str × Nat)) :=
     | _ => none
 
 /-- one statement under one environment: (as the code does, as the reference says) -/
-def evalStmt (tb : Tables) (G : Cfg Float) (e : Expr) : String × String :=
+structure StmtOut where
+  impl : String          -- as the code does (Impl.eval)
+  spec : String          -- as the reference says (Spec.eval)
+  alts : List String     -- the admissible errors (Spec.errSet), when the outcome is an error
+  modOut : Bool          -- some `%` has an operand outside the int64 range
+
+def showErr (x : ErrKind × Str × Option Nat) : String :=
+  match x with
+  | (k, s, p) => showOut (.err k s p : Out Float)
+
+def evalStmt (tb : Tables) (G : Cfg Float) (e : Expr) : StmtOut :=
   match missing tb G e with
-  | some m => (m, m)
-  | none => (showOut (Impl.eval G e), showOut (Spec.eval G e))
+  | some m => ⟨m, m, [], false⟩
+  | none =>
+    let a := showOut (Impl.eval G e)
+    ⟨a, showOut (Spec.eval G e), ((Spec.errSet G e).map showErr).eraseDups.filter (· != a), !Spec.modInRange G e⟩
 
 def isErrOut (s : String) : Bool := s.startsWith "E " || s.startsWith "MISSING"
 
 /-- a program under one environment: statements in order, the first error ends it, otherwise the
     value of the last one; `r := e` alone: the value bound -/
-def evalProgram (tb : Tables) (G : Cfg Float) (es : List Expr) : String × String :=
+def evalProgram (tb : Tables) (G : Cfg Float) (es : List Expr) : StmtOut :=
   match es with
   | [.bin .assign _ (.atom (.ident name)) r] =>
-    let (a, b) := evalStmt tb G r
+    let o := evalStmt tb G r
     let wrap (x : String) := if x.startsWith "V " then "A " ++ hexEnc name ++ " " ++ (x.drop 2).toString else x
-    (wrap a, wrap b)
+    { o with impl := wrap o.impl, spec := wrap o.spec }
   | _ =>
     let outs := es.map (evalStmt tb G)
-    let pick (sel : String × String → String) : String :=
+    let pick (sel : StmtOut → String) : String :=
       match (outs.map sel).find? isErrOut with
       | some e => e
       | none => ((outs.map sel).getLast?).getD "V n"
-    (pick (·.1), pick (·.2))
+    let alts := match outs.find? (fun o => isErrOut o.impl) with
+      | some o => o.alts
+      | none => []
+    ⟨pick (·.impl), pick (·.spec), alts, outs.any (·.modOut)⟩
 
 def showProgram : List Expr → String
   | [e] => showTree e
   | es => "(statements" ++ String.join (es.map fun e => "," ++ showTree e) ++ ")"
+
+/-- tree and outcomes of a token list (with the attributes) -/
+def resultOfTokens (tb : Tables) (envs : List (Option (List (Str × Val Float)))) (ts : List LTok) : String :=
+  if ts.any (fun t => t.tk == .other errorName) then "PARSEERR -"
+  else if ts.any (fun t => match t.tk with | .other _ => true | _ => false) then "UNSUPPORTED other-token"
+  else
+    match Impl.parseProgram Ecal.Gen.C03.table (ts.length + 1) ts with
+    | .error .fuel => "FUEL"
+    | .error .unsupported => "UNSUPPORTED parse"
+    | .error _ => "PARSEERR -"
+    | .ok es =>
+      let tree := showProgram es
+      let nested := match es with
+        | [.bin .assign _ (.atom (.ident _)) r] => hasAssign r
+        | _ => es.any hasAssign
+      if nested then tree ++ " NESTED-ASSIGN"
+      else
+        let outs := envs.map fun env =>
+          let G := match env with
+            | some e => envCfg tb e
+            | none => cfg tb
+          evalProgram tb G es
+        let a := "|".intercalate (outs.map (·.impl))
+        let b := "|".intercalate (outs.map (·.spec))
+        let nt := match es with | [.atom _] => "" | _ => "\tnt=1"
+        -- admissible alternatives per evaluation: `alt=<index>:<outcome>~<outcome>;…`
+        let altParts := (outs.zipIdx.filter fun (o, _) => !o.alts.isEmpty).map fun (o, i) =>
+          toString i ++ ":" ++ "~".intercalate o.alts
+        let alt := if altParts.isEmpty then "" else "\talt=" ++ ";".intercalate altParts
+        if a = b then tree ++ " " ++ a ++ nt ++ alt
+        else
+          -- the code deviates from the reference: which known finding?
+          let coreOf (x : String) : String :=
+            "|".intercalate ((x.splitOn "|").map fun o =>
+              if o.startsWith "E " then " ".intercalate ((o.splitOn " ").take 3) else o)
+          let kf :=
+            if coreOf a = coreOf b then "error-node-left-operand"
+            else if outs.any (·.modOut) then "mod-out-of-int64-range"
+            else "MODEL-DRIFT"   -- excluded by eval_eq_quirk_spec; never a known finding
+          tree ++ " " ++ a ++ nt ++ alt ++ "\tkf=" ++ kf ++ "\tspec=" ++ tree ++ " " ++ b
 
 def runCase (payload : String) : String :=
   let fs := (payload.splitOn " ").map splitField
@@ -383,36 +438,17 @@ def runCase (payload : String) : String :=
           | some w => !intendedOk w ts
           | none => false
         if lexdiff then "LEXDIFF the lexer model's tokens are not the generator's intended tokens"
-        else if ts.any (fun t => t.tk == .other errorName) then "PARSEERR -"
-        else if ts.any (fun t => match t.tk with | .other _ => true | _ => false) then "UNSUPPORTED other-token"
         else
-          match Impl.parseProgram Ecal.Gen.C03.table (ts.length + 1) ts with
-          | .error .fuel => "FUEL"
-          | .error .unsupported => "UNSUPPORTED parse"
-          | .error _ => "PARSEERR -"
-          | .ok es =>
-            let tree := showProgram es
-            let nested := match es with
-              | [.bin .assign _ (.atom (.ident _)) r] => hasAssign r
-              | _ => es.any hasAssign
-            if nested then tree ++ " NESTED-ASSIGN"
+          let r := resultOfTokens tb envs ts
+          -- the documented reading of number literals (exponents the lexer splits)
+          match lexTokensDocumented num src with
+          | some ts' =>
+            if ts' == ts then r
             else
-              let outs := envs.map fun env =>
-                let G := match env with
-                  | some e => envCfg tb e
-                  | none => cfg tb
-                evalProgram tb G es
-              let a := "|".intercalate (outs.map (·.1))
-              let b := "|".intercalate (outs.map (·.2))
-              let nt := match es with | [.atom _] => "" | _ => "\tnt=1"
-              if a = b then tree ++ " " ++ a ++ nt
-              else
-                -- the code deviates from the reference: which known finding?
-                let coreOf (x : String) : String :=
-                  "|".intercalate ((x.splitOn "|").map fun o =>
-                    if o.startsWith "E " then " ".intercalate ((o.splitOn " ").take 3) else o)
-                let kf := if coreOf a = coreOf b then "error-node-left-operand" else "mod-out-of-int64-range"
-                tree ++ " " ++ a ++ nt ++ "\tkf=" ++ kf ++ "\tspec=" ++ tree ++ " " ++ b
+              let main (x : String) := (x.splitOn "\t").headD ""
+              let nt := if (r.splitOn "\t").contains "nt=1" then "\tnt=1" else ""
+              main r ++ nt ++ "\tkf=number-exponent-split\tspec=" ++ main (resultOfTokens tb envs ts')
+          | none => r
     | _, _, _, _, _, _, _ => "bad-payload"
   | _, _, _, _, _ => "bad-payload"
 
